@@ -7,6 +7,8 @@ class C09(Prop):
     coq_targets = ["props/C09.vo"]
     props_file = "props/C09.v"
     design_ref = "DESIGN.md §4 C09"
+    level_text = 'Coq theorems over all strings and both allow_substvar settings: relations lexer partition+totality; the parser (a state-machine transcription with explicit panic/fuel flags) conserves all token text, never bumps on an empty token list and every loop terminates within its fuel; hence parse_relaxed prints the input, from_str succeeds exactly when no error is reported, and Entry/Relation::from_str print a contiguous substring. Tied to the code by the rel-parse correspondence stream.'
+    level_note = 'Model: Lexer in debian-control/src/relations.rs; fn parse and FromStr impls in debian-control/src/lossless/relations.rs.'
     rule = ("corpus (repo test literals, /verif/corpus/rel) + every string of length <= n over the 20-symbol relation "
             "alphabet (n=4 quick, 5 thorough) + grammar-generated relationship fields and their mutations; "
             "non-trivial = at least 2 tokens")
